@@ -130,12 +130,26 @@ def run_one_step(e, L, g, start, tab):
     except ValueError as ex:
         return "dead", str(ex), V
     except Budget as ex:
-        loc = frame_locals(ex, "encode")
-        q = loc["quotient"]
-        codes = strs.codes_of(loc["dna_sequence"])
+        loc = frame_locals(ex, "encode") or {}
+        # the loop state is read from the frame: by name when the names are the repository's, else by type (a refactoring may
+        # rename locals or collect the strand in a list); if it cannot be located the step lemma is not applicable (skip)
+        q = loc.get("quotient")
+        if not isinstance(q, (strs.DecNum, str, strs.SStr)):
+            cands = [v for v in loc.values() if isinstance(v, strs.DecNum)]
+            q = cands[0] if len(cands) == 1 else None
+        emitted = loc.get("dna_sequence")
+        if strs.codes_of(emitted) is None if emitted is not None else True:
+            emitted = None
+            for v in loc.values():
+                if isinstance(v, list) and len(v) == 1 and strs.codes_of(v[0]) is not None and len(strs.codes_of(v[0])) == 1:
+                    emitted = v[0]
+        if q is None or emitted is None:
+            return "nostate", "loop state (quotient / emitted strand) not found among the locals of encode", V
+        codes = strs.codes_of(emitted)
         if len(codes) != 1:
             return "exc", "%d nucleotides emitted in one iteration" % len(codes), V
         qv = q.v if isinstance(q, strs.DecNum) else stubs._val(q)
-        return "step", (oracles.nuc_index(codes[0]), qv, core.zint(loc["vertex_index"])), V
+        vtx = loc.get("vertex_index")
+        return "step", (oracles.nuc_index(codes[0]), qv, core.zint(vtx) if isinstance(vtx, (int, core.SymInt)) or type(vtx).__module__ == "numpy" else None), V
     finally:
         acc.budget = None
